@@ -972,6 +972,8 @@ def uv_sphere(
     # generate the 2D curve for the UV sphere
     theta = np.linspace(0.0, np.pi, num=count[0])
     linestring = np.column_stack((np.sin(theta), -np.cos(theta))) * radius
+    # `sin(pi)` is not exactly zero: put both poles exactly on the axis
+    linestring[[0, -1], 0] = 0.0
 
     # revolve the curve to create a volume
     return revolve(
@@ -1022,6 +1024,8 @@ def capsule(
     # create a half circle
     theta = np.linspace(-np.pi / 2.0, np.pi / 2.0, count[0])
     linestring = np.column_stack((np.cos(theta), np.sin(theta))) * radius
+    # `cos(pi / 2)` is not exactly zero: put both poles exactly on the axis
+    linestring[[0, -1], 0] = 0.0
 
     # offset the top and bottom by half the height
     half = len(linestring) // 2
